@@ -46,6 +46,9 @@ pub use sys::{op, *};
 mod cancel;
 pub use cancel::*;
 
+#[cfg(compio_verif)]
+pub mod verif;
+
 mod buffer_pool;
 pub use buffer_pool::{BoxAllocator, BufferAllocator, BufferPool, BufferRef};
 
@@ -521,6 +524,8 @@ impl Entry {
     }
 
     pub fn notify(self) {
+        #[cfg(compio_verif)]
+        verif::log(verif::Kind::Final, self.key.verif_id());
         #[cfg(io_uring)]
         self.key.borrow().extra_mut().set_flags(self.flags());
         self.key.set_result(self.result);
